@@ -10,6 +10,20 @@ FIELDS = ["denom", "amount", "sender", "receiver", "memo"]
 FFFD = b"\xef\xbf\xbd"
 
 
+_hx = hx
+
+
+def hx(h):  # noqa: F811
+    """bytes term; long inputs are split so that no Coq string literal is deeper than the parser's stack allows"""
+    if len(h) <= 4000:
+        return _hx(h)
+    parts = [h[i:i + 4000] for i in range(0, len(h), 4000)]
+    t = _hx(parts[-1])
+    for p in reversed(parts[:-1]):
+        t = "(app %s %s)" % (_hx(p), t)
+    return t
+
+
 def _jftpd(v):
     return "(mkJFTPD %s)" % " ".join(hx(x) for x in v)
 
@@ -194,6 +208,15 @@ def spec_dec(r):
         return "UnmarshalPacketData(JSON) panicked on %r" % bz
     if o["r"] in ("err", "nil") and o["upd"]["r"] == "ok":
         return "UnmarshalPacketData(JSON) accepted %r although decoding failed (%s)" % (bz, o["r"])
+    # UnmarshalPacketData = json.Unmarshal as above, then ValidateBasic, then the conversion: same transfer
+    if o["r"] == "ok":
+        if o["vb"] and o["upd"]["r"] != "ok":
+            return "UnmarshalPacketData(JSON) rejected %r although it decodes to a value that passes ValidateBasic" % bz
+        if not o["vb"] and o["upd"]["r"] == "ok":
+            return "UnmarshalPacketData(JSON) accepted %r although the decoded value fails ValidateBasic" % bz
+        if o["upd"]["r"] == "ok" and o["upd"]["v"][1:] != o["v"][1:]:
+            return "UnmarshalPacketData(JSON) of %r returned %s, the decoded packet data is %s" % (
+                bz, [bytes.fromhex(h) for h in o["upd"]["v"]], [bytes.fromhex(h) for h in o["v"]])
     ref = reference_decode(bz)
     if ref is None:
         return None
